@@ -13,7 +13,7 @@
 From Coq Require Import List NArith Bool.
 From Coq Require String. Import String.StringSyntax.
 From stdpp Require Import gmap.
-From OV Require Import Base.Bytes Base.Cases Model.Js Proofs.Js Proofs.JsRefute Model.Conc Proofs.Conc.
+From OV Require Import Base.Bytes Base.Cases Model.Js Proofs.Js Proofs.JsRefute Gen.PkgVars Model.Conc Proofs.Conc.
 Import ListNotations.
 Local Delimit Scope string_scope with string.
 
@@ -75,7 +75,40 @@ Section C14.
     Forall (fun g => increasing (g_ids g) = true) (snd c') /\
     Forall (fun id => (h_ctr h < id <= h_ctr (fst c'))%N) (alllogs (snd c')).
   Proof. exact (ids_unique_increasing S r compile xcompile xeval Hrt). Qed.
+  (* EXACTLY which accesses are assumed atomic: every step of every goroutine changes the shared
+     state by at most one action of the vocabulary [action] (sync.Pool Get/Put of nodes and VMs,
+     atomic.AddInt64 on the ID counter, Get / Add of the three internally locked LRU caches) *)
+  Theorem gstep_one_action : forall (h : hid S) g ch,
+    exists a, fst (gstep S r compile xcompile xeval h g ch) = act_apply S r a h.
+  Proof. exact (gstep_one_action S r compile xcompile xeval). Qed.
+
+  (* Schema creation: omniparser.NewSchema running among ANY other goroutines (transforms, other
+     NewSchema calls) from ANY shared state satisfying the invariant returns the pure validation
+     function of its own arguments and of the compilation of its own xpaths / regexps - it reads
+     nothing else (C14-r41 / r43 class: a process-wide memo or a write to the caller's slice is
+     state that is not in the model; see process_state_accounted) *)
+  Theorem new_schema_reads_args_only : forall {A R} (validate : A -> list N -> R) (args : A)
+      sch opss (h : hid S) c' i g es,
+    hid_ok sch h -> Forall (Forall (op_wf)) opss ->
+    interleave (h, map g_init opss) c' ->
+    nth_error opss i = Some (new_schema_ops es) -> nth_error (snd c') i = Some g -> finished g ->
+    new_schema_result validate args (g_out g) = validate args (map xcompile es).
+  Proof. exact (@new_schema_reads_args_only S r compile xcompile xeval Hrt). Qed.
 End C14.
+
+(* The process-wide state of the SOURCES is the shared state of the MODEL: every package-level
+   `var` of the library packages (Gen/PkgVars.v, re-extracted on every run) is a component of
+   [hid], a test-only switch or an init-time table that no library function writes, or an
+   unwritten error value / scalar / function.  A new package-level map, pool, cache, slice or
+   counter - what most concurrency defects of this code base would need - is not accounted for:
+   this theorem then stops checking. *)
+Theorem process_state_accounted : forallb var_ok pkg_vars = true.
+Proof. exact process_state_accounted. Qed.
+
+(* ... and conversely every component of the model's shared state is a variable of the sources *)
+Theorem shared_components_real :
+  forallb component_real all_components = true /\ forall c, In c all_components.
+Proof. exact (conj shared_components_real all_components_complete). Qed.
 
 (* ---- non-vacuity: two goroutines over one schema, each: build a node, javascript_with_context on
    it, an xpath query, release - from a state with empty caches of capacity one ------------------- *)
@@ -102,6 +135,13 @@ Proof.
     apply List.Forall_cons; [apply Hw|]. apply List.Forall_cons; [apply Hw|apply List.Forall_nil]. }
   vm_compute. repeat split; reflexivity.
 Qed.
+
+(* schema creation as a goroutine: three lookups (one repeated), cache of capacity one *)
+Example c14_new_schema_nonvacuous :
+  let g := snd (run_alone unit r0 compile0 (fun e => (e * 2)%N) nv_xeval 40 nv_h0 (g_init (new_schema_ops [5; 6; 5]%N))) in
+  finished g /\ g_out g = [OutC 10%N; OutC 12%N; OutC 10%N] /\
+  new_schema_result (fun (name : N) xs => (name, xs)) 7%N (g_out g) = (7%N, [10; 12; 10]%N).
+Proof. vm_compute. repeat split; reflexivity. Qed.
 
 Example c14_ids_nonvacuous :
   check_case (mkCCase 10 16 false [[11; 13; 16]; [12; 14; 15]]%N) = true /\
